@@ -979,6 +979,8 @@ def check_c11(pid, tier, build, props):
     for k in ["Assign", "Expr", "If", "ClassDef", "AsyncFunctionDef", "Return"]:
         inner = {"body": [("Pass", {})], "orelse": []} if k == "If" else {}
         cases.append(("non-function:%s" % k, [(k, inner), ("FunctionDef", {"body": [("Return", {})]})]))
+        # ... and nothing else: `async def` as the input itself must not pass for a function definition
+        cases.append(("non-function-alone:%s" % k, [(k, inner)]))
     cases.append(("two-functions", [("FunctionDef", {"body": [("Return", {})]}), ("FunctionDef", {"body": [("Return", {})]})]))
     # random trees, most of them with a few unsupported statements somewhere
     for i in range(250 if tier == "quick" else 3000):
@@ -1697,7 +1699,10 @@ def check_c08(pid, tier, build, props):
             if c == [1]:
                 ok_prune += 1
             else:
-                violations.append({"source": o["src"], "witness": None,
+                s0 = o.get("cfg_semantics")
+                violations.append({"source": o["src"],
+                                   "witness": (dict(s0, reason="interpreting the pruned graph differs from running the function")
+                                               if isinstance(s0, dict) and "harness" not in s0 else None),
                                    "note": "pruned graph differs from the model Prune.prune of the unpruned graph"})
         s = o.get("cfg_semantics")
         if s is not None:
@@ -1710,6 +1715,8 @@ def check_c08(pid, tier, build, props):
             else:
                 violations.append({"source": o["src"], "finding_class": cls,
                                    "witness": dict(s, reason="interpreting the graph differs from running the function")})
+    # a violation with a concrete failing input first
+    violations.sort(key=lambda v: v.get("witness") is None)
     nth = len(props["theorems"])
     unknown = [v for v in violations if not v.get("finding_class")]
     # the front-end model of the semantic theorem (Src.v) against the transformer: same blocks, same
